@@ -1,0 +1,8 @@
+//go:build !verif
+// +build !verif
+
+package executor
+
+import "context"
+
+func verifGate(context.Context, string, *Job, error) {}
